@@ -54,6 +54,24 @@ where
     }
 }
 
+/// Map a signed value to a positive value needing the same number of bits (sign bit excluded).
+/// `-1 => 0`, `-128 => 127`, `-129 => 128`
+fn signed_magnitude(v: i64) -> i64 {
+    if v < 0 {
+        !v
+    } else {
+        v
+    }
+}
+
+/// The number of bytes needed to store, in two's complement, any signed value
+/// whose magnitude (see [signed_magnitude]) is at most `max_magnitude`.
+fn needed_bytes_signed(max_magnitude: i64) -> ByteSize {
+    // One more bit for the sign.
+    let bits = (i64::BITS - max_magnitude.leading_zeros()) as usize + 1;
+    bits.div_ceil(8).try_into().unwrap()
+}
+
 #[derive(Default, Debug)]
 pub enum ValueCounter<T> {
     #[default]
@@ -242,11 +260,11 @@ impl<PN: PropertyName> Property<PN> {
             } => match entry.value(name).as_ref() {
                 Value::Signed(value) => {
                     counter.process(*value);
-                    size.process(*value);
+                    size.process(signed_magnitude(*value));
                 }
                 Value::SignedWord(value) => {
                     counter.process(value.get());
-                    size.process(value.get());
+                    size.process(signed_magnitude(value.get()));
                 }
                 _ => {
                     panic!("Value type doesn't correspond to property");
@@ -312,7 +330,10 @@ impl<PN: PropertyName> Property<PN> {
                 size,
                 name,
             } => layout::Property::SignedInt {
-                size: size.into(),
+                size: match size {
+                    PropertySize::Fixed(size) => size,
+                    PropertySize::Auto(max_magnitude) => needed_bytes_signed(max_magnitude),
+                },
                 default: counter.into(),
                 name,
             },
